@@ -20,7 +20,8 @@ use ndarray::{arr1, Array1};
 //        rdistance([a],[b]) must be dist_to_rdist(|a-b|): the link between the two sides of the
 //        comparison made by within_range.
 // ------------------------------------------------------------------------------------------------
-fn order_and_roundtrip_exact<M: Distance<f32>>(m: &M) {
+// Scalar part (O1, O2, W) for a metric whose reduced form involves no transcendental: loop-free, all finite d >= 0.
+fn order_exact<M: Distance<f32>>(m: &M) -> (f32, f32, f32, f32) {
     let (d1, d2): (f32, f32) = (kani::any(), kani::any());
     kani::assume(d1.is_finite() && d2.is_finite() && d1 >= 0.0 && d2 >= 0.0);
     let (r1, r2) = (m.dist_to_rdist(d1), m.dist_to_rdist(d2));
@@ -28,6 +29,10 @@ fn order_and_roundtrip_exact<M: Distance<f32>>(m: &M) {
     if r1 < r2 { assert!(d1 < d2); }
     assert!(m.rdist_to_dist(r1) == d1);
     assert!(!r1.is_nan() && r1 >= 0.0);
+    (d1, d2, r1, r2)
+}
+// Link (C) in one dimension, all finite coordinates.
+fn link_exact<M: Distance<f32>>(m: &M) -> (f32, f32) {
     let (a, b): (f32, f32) = (kani::any(), kani::any());
     kani::assume(a.is_finite() && b.is_finite());
     let (pa, pb) = (arr1(&[a]), arr1(&[b]));
@@ -36,128 +41,151 @@ fn order_and_roundtrip_exact<M: Distance<f32>>(m: &M) {
     assert!(dd == (a - b).abs());
     assert!(rd == m.dist_to_rdist((a - b).abs()));
     assert!(m.rdistance(pb.view(), pa.view()) == rd);
-    kani::cover!(d1 < d2 && r1 < r2);
-    kani::cover!(d1 == 0.0);
-    kani::cover!(rd > 0.0 && rd.is_finite());
-    kani::cover!(rd == f32::INFINITY);
+    assert!(m.rdist_to_dist(rd) == dd);
+    (dd, rd)
 }
 
-// @unit class=complete tier=quick mem=light fns=linfa_nn::distance::L1Dist::dist_to_rdist,linfa_nn::distance::L1Dist::rdist_to_dist,linfa_nn::distance::L1Dist::distance,linfa_nn::distance::L1Dist::rdistance
+// @unit class=complete tier=quick mem=light fns=linfa_nn::distance::L1Dist::dist_to_rdist,linfa_nn::distance::L1Dist::rdist_to_dist
 #[kani::proof]
-#[kani::unwind(3)]
 #[kani::stub(alloc::fmt::format, fmt_stub)]
 fn c07_conv_l1() {
-    order_and_roundtrip_exact(&L1Dist);
+    let (d1, d2, r1, r2) = order_exact(&L1Dist);
+    kani::cover!(d1 < d2 && r1 < r2);
+    kani::cover!(d1 == 0.0 && d2 == f32::MAX);
 }
 
-// @unit class=complete tier=quick mem=light fns=linfa_nn::distance::LInfDist::dist_to_rdist,linfa_nn::distance::LInfDist::rdist_to_dist,linfa_nn::distance::LInfDist::distance,linfa_nn::distance::LInfDist::rdistance
+// @unit class=complete tier=quick mem=light fns=linfa_nn::distance::LInfDist::dist_to_rdist,linfa_nn::distance::LInfDist::rdist_to_dist
 #[kani::proof]
-#[kani::unwind(3)]
 #[kani::stub(alloc::fmt::format, fmt_stub)]
 fn c07_conv_linf() {
-    order_and_roundtrip_exact(&LInfDist);
-}
-
-// L2: reduced distance = squared distance.  powi(x,2) = x*x (exact in Rust's lowering), sqrt uninterpreted monotone.
-// @unit class=complete tier=quick mem=light fns=linfa_nn::distance::L2Dist::dist_to_rdist,linfa_nn::distance::L2Dist::rdist_to_dist,linfa_nn::distance::L2Dist::rdistance
-#[kani::proof]
-#[kani::unwind(7)]
-#[kani::stub(alloc::fmt::format, fmt_stub)]
-#[kani::stub(f32::powi, ghost_powi32)]
-#[kani::stub(f32::sqrt, ghost_sqrt32)]
-fn c07_conv_l2() {
-    let m = L2Dist;
-    let (d1, d2): (f32, f32) = (kani::any(), kani::any());
-    kani::assume(d1.is_finite() && d2.is_finite() && d1 >= 0.0 && d2 >= 0.0);
-    let (r1, r2): (f32, f32) = (m.dist_to_rdist(d1), m.dist_to_rdist(d2));
-    if d1 < d2 { assert!(r1 <= r2); }
-    if r1 < r2 { assert!(d1 < d2); }
-    assert!(!r1.is_nan() && r1 >= 0.0);
-    // the reduced form of the Euclidean distance is the squared distance
-    assert!(r1 == d1 * d1);
-    // wiring: the way back is sqrt of exactly that value; monotone both ways, fixed points 0 and 1
-    let b1: f32 = m.rdist_to_dist(r1);
-    let b2: f32 = m.rdist_to_dist(r2);
-    unsafe {
-        assert!(G_SQRT_N == 2 && G_SQRT_A[0].to_bits() == r1.to_bits() && G_SQRT_R[0].to_bits() == b1.to_bits());
-        assert!(G_SQRT_A[1].to_bits() == r2.to_bits() && G_SQRT_R[1].to_bits() == b2.to_bits());
-    }
-    if d1 <= d2 { assert!(b1 <= b2); }
-    if b1 < b2 { assert!(d1 < d2); }
-    if d1 == 0.0 { assert!(b1 == 0.0); }
-    if d1 == 1.0 { assert!(b1 == 1.0); }
-    assert!(!b1.is_nan() && b1 >= 0.0);
-    // link to rdistance in one dimension (textbook distance |a-b|)
-    let (a, b): (f32, f32) = (kani::any(), kani::any());
-    kani::assume(a.is_finite() && b.is_finite());
-    let (pa, pb) = (arr1(&[a]), arr1(&[b]));
-    let rd: f32 = m.rdistance(pa.view(), pb.view());
-    assert!(rd == m.dist_to_rdist((a - b).abs()));
-    assert!(rd == (a - b) * (a - b));
-    assert!(m.rdistance(pb.view(), pa.view()) == rd);
+    let (d1, d2, r1, r2) = order_exact(&LInfDist);
     kani::cover!(d1 < d2 && r1 < r2);
-    kani::cover!(d1 < d2 && r1 == r2);
-    kani::cover!(d1 == 0.0);
-    kani::cover!(r1 == f32::INFINITY);
-    kani::cover!(rd > 0.0 && rd.is_finite());
+    kani::cover!(d1 == 0.0 && d2 == f32::MAX);
 }
 
-// Lp: no reduced form is defined, so both conversions must be the identity, for every exponent p.
-// @unit class=complete tier=quick mem=light fns=linfa_nn::distance::LpDist::dist_to_rdist,linfa_nn::distance::LpDist::rdist_to_dist
+// Lp: no reduced form is defined, so both conversions must be the identity, for every exponent p (even NaN).
+// @unit class=complete tier=quick mem=light fns=linfa_nn::distance::LpDist::dist_to_rdist,linfa_nn::distance::LpDist::rdist_to_dist,linfa_nn::distance::LpDist::new
 #[kani::proof]
 #[kani::stub(alloc::fmt::format, fmt_stub)]
 fn c07_conv_lp() {
     let p: f32 = kani::any();
     let m = LpDist::new(p);
     assert!(m.0.to_bits() == p.to_bits());
-    let (d1, d2): (f32, f32) = (kani::any(), kani::any());
-    kani::assume(d1.is_finite() && d2.is_finite() && d1 >= 0.0 && d2 >= 0.0);
-    let (r1, r2): (f32, f32) = (m.dist_to_rdist(d1), m.dist_to_rdist(d2));
-    if d1 < d2 { assert!(r1 <= r2); }
-    if r1 < r2 { assert!(d1 < d2); }
-    assert!(m.rdist_to_dist(r1) == d1);
-    assert!(r1 == d1);
+    let (d1, d2, r1, r2) = order_exact(&m);
+    assert!(r1 == d1 && r2 == d2);
     kani::cover!(d1 < d2 && p.is_nan());
     kani::cover!(d1 < d2 && p >= 1.0);
 }
 
-// @unit class=complete tier=thorough mem=light timeout=900 fns=linfa_nn::distance::L2Dist::dist_to_rdist
+// L2: reduced distance = squared distance, way back = square root.
+// Wiring is checked through recording ghosts: dist_to_rdist(d) must be powi(d, 2) and nothing else, rdist_to_dist(r)
+// must be sqrt(r) and nothing else; O1/O2 then follow from the monotonicity AXIOMS of squaring and sqrt (helpers.rs,
+// common/ghost_f32.rs) for every finite d >= 0.
+// @unit class=complete tier=quick mem=light fns=linfa_nn::distance::L2Dist::dist_to_rdist,linfa_nn::distance::L2Dist::rdist_to_dist
 #[kani::proof]
+#[kani::unwind(7)]
 #[kani::stub(alloc::fmt::format, fmt_stub)]
-#[kani::stub(f32::powi, ghost_powi32)]
-fn c07_probe_l2_cadical() {
+#[kani::stub(f32::powi, ghost_powi32_rec)]
+#[kani::stub(f32::sqrt, ghost_sqrt32)]
+fn c07_conv_l2() {
     let m = L2Dist;
     let (d1, d2): (f32, f32) = (kani::any(), kani::any());
     kani::assume(d1.is_finite() && d2.is_finite() && d1 >= 0.0 && d2 >= 0.0);
     let (r1, r2): (f32, f32) = (m.dist_to_rdist(d1), m.dist_to_rdist(d2));
+    unsafe {
+        assert!(PW_N == 2);
+        assert!(PW_X[0] == d1 && PW_E[0] == 2 && PW_R[0].to_bits() == r1.to_bits());
+        assert!(PW_X[1] == d2 && PW_E[1] == 2 && PW_R[1].to_bits() == r2.to_bits());
+    }
     if d1 < d2 { assert!(r1 <= r2); }
-    kani::cover!(d1 < d2 && r1 < r2);
+    if r1 < r2 { assert!(d1 < d2); }
+    assert!(!r1.is_nan() && r1 >= 0.0);
+    let b1: f32 = m.rdist_to_dist(r1);
+    let b2: f32 = m.rdist_to_dist(r2);
+    unsafe {
+        assert!(G_SQRT_N == 2 && PW_N == 2);
+        assert!(G_SQRT_A[0].to_bits() == r1.to_bits() && G_SQRT_R[0].to_bits() == b1.to_bits());
+        assert!(G_SQRT_A[1].to_bits() == r2.to_bits() && G_SQRT_R[1].to_bits() == b2.to_bits());
+    }
+    // the round trip keeps the order, never yields NaN / negative values, fixes 0 and 1
+    if d1 <= d2 { assert!(b1 <= b2); }
+    if b1 < b2 { assert!(d1 < d2); }
+    if d1 == 0.0 { assert!(b1 == 0.0); }
+    if d1 == 1.0 { assert!(b1 == 1.0); }
+    assert!(!b1.is_nan() && b1 >= 0.0);
+    kani::cover!(d1 < d2 && r1 < r2 && b1 < b2);
+    kani::cover!(d1 < d2 && r1 == r2);
+    kani::cover!(d1 == 0.0 && d2 == f32::MAX);
 }
 
-// @unit class=complete tier=thorough mem=light timeout=900 fns=linfa_nn::distance::L2Dist::dist_to_rdist
+// The same with the REAL multiplication (powi(x,2) = x*x, exact in Rust's lowering) on a bounded domain:
+// d = n * 2^-6, n integer < 2^12 (squares are exact): strict order, value equals the exact square.
+// @unit class=bounded tier=quick mem=light timeout=400 bound="d=n/64,n<4096" fns=linfa_nn::distance::L2Dist::dist_to_rdist
 #[kani::proof]
-#[kani::solver(kissat)]
 #[kani::stub(alloc::fmt::format, fmt_stub)]
 #[kani::stub(f32::powi, ghost_powi32)]
-fn c07_probe_l2_kissat() {
+fn c07_conv_l2_exact() {
     let m = L2Dist;
-    let (d1, d2): (f32, f32) = (kani::any(), kani::any());
-    kani::assume(d1.is_finite() && d2.is_finite() && d1 >= 0.0 && d2 >= 0.0);
+    let (n1, n2): (u32, u32) = (kani::any(), kani::any());
+    kani::assume(n1 < 4096 && n2 < 4096);
+    let (d1, d2) = (n1 as f32 / 64.0, n2 as f32 / 64.0);
     let (r1, r2): (f32, f32) = (m.dist_to_rdist(d1), m.dist_to_rdist(d2));
-    if d1 < d2 { assert!(r1 <= r2); }
-    kani::cover!(d1 < d2 && r1 < r2);
+    assert!(r1 == (n1 * n1) as f32 / 4096.0);
+    if n1 < n2 { assert!(r1 < r2); }
+    if r1 < r2 { assert!(n1 < n2); }
+    if r1 == r2 { assert!(n1 == n2); }
+    kani::cover!(n1 < n2 && n1 > 0);
+    kani::cover!(n1 == 4095);
 }
 
-// @unit class=complete tier=thorough mem=light timeout=900 fns=linfa_nn::distance::L2Dist::dist_to_rdist
+// Link (C): 1-dimensional points, textbook distance |a-b|.
+// @unit class=bounded tier=quick mem=light bound="dim=1" fns=linfa_nn::distance::L1Dist::distance,linfa_nn::distance::L1Dist::rdistance,linfa_nn::distance::L1Dist::dist_to_rdist
 #[kani::proof]
-#[kani::solver(minisat)]
+#[kani::unwind(3)]
+#[kani::stub(alloc::fmt::format, fmt_stub)]
+fn c07_link_l1_dim1() {
+    let (dd, rd) = link_exact(&L1Dist);
+    kani::cover!(rd > 0.0 && rd.is_finite());
+    kani::cover!(dd == f32::INFINITY);
+    kani::cover!(dd == 0.0);
+}
+
+// @unit class=bounded tier=quick mem=light bound="dim=1" fns=linfa_nn::distance::LInfDist::distance,linfa_nn::distance::LInfDist::rdistance,linfa_nn::distance::LInfDist::dist_to_rdist
+#[kani::proof]
+#[kani::unwind(3)]
+#[kani::stub(alloc::fmt::format, fmt_stub)]
+fn c07_link_linf_dim1() {
+    let (dd, rd) = link_exact(&LInfDist);
+    kani::cover!(rd > 0.0 && rd.is_finite());
+    kani::cover!(dd == f32::INFINITY);
+    kani::cover!(dd == 0.0);
+}
+
+// L2 link: both sides of within_range's comparison `rdistance(q,p) < dist_to_rdist(r)` live on the same (squared) scale:
+// rdistance([a],[b]) = (a-b)^2 = dist_to_rdist(|a-b|); integer coordinates in [-100,100] (a commuted / re-associated
+// float multiplier is out of SAT reach on the full domain).  distance = sqrt (f64, uninterpreted) of the same value.
+// @unit class=bounded tier=quick mem=light timeout=400 bound="dim=1,coords in -100..100" fns=linfa_nn::distance::L2Dist::distance,linfa_nn::distance::L2Dist::rdistance,linfa_nn::distance::L2Dist::dist_to_rdist
+#[kani::proof]
+#[kani::unwind(7)]
 #[kani::stub(alloc::fmt::format, fmt_stub)]
 #[kani::stub(f32::powi, ghost_powi32)]
-fn c07_probe_l2_minisat() {
+#[kani::stub(f64::sqrt, ghost_sqrt64)]
+fn c07_link_l2_dim1() {
+    let (ia, ib): (i8, i8) = (kani::any(), kani::any());
+    kani::assume(ia >= -100 && ia <= 100 && ib >= -100 && ib <= 100);
+    let (a, b) = (ia as f32, ib as f32);
+    let (pa, pb) = (arr1(&[a]), arr1(&[b]));
     let m = L2Dist;
-    let (d1, d2): (f32, f32) = (kani::any(), kani::any());
-    kani::assume(d1.is_finite() && d2.is_finite() && d1 >= 0.0 && d2 >= 0.0);
-    let (r1, r2): (f32, f32) = (m.dist_to_rdist(d1), m.dist_to_rdist(d2));
-    if d1 < d2 { assert!(r1 <= r2); }
-    kani::cover!(d1 < d2 && r1 < r2);
+    let rd: f32 = m.rdistance(pa.view(), pb.view());
+    let diff = ia as i32 - ib as i32;
+    assert!(rd == (diff * diff) as f32);
+    assert!(rd == m.dist_to_rdist((a - b).abs()));
+    assert!(m.rdistance(pb.view(), pa.view()) == rd);
+    let dd: f32 = m.distance(pa.view(), pb.view());
+    unsafe { assert!(H_SQRT_N == 1 && H_SQRT_A[0] == (diff * diff) as f64 && dd == H_SQRT_R[0] as f32); }
+    if diff == 0 { assert!(dd == 0.0); }
+    if diff == 1 || diff == -1 { assert!(dd == 1.0); }
+    kani::cover!(diff > 1);
+    kani::cover!(diff < -1);
+    kani::cover!(diff == 0);
 }
